@@ -256,6 +256,42 @@ def suite_gen(which: set[str]):
                     def state(o):
                         return (np.array(o._buffer), np.array(o.packed_centroid), o.child, list(o.mol_indices))
                     st_c, st_s = state(c), state(sb)
+                    # the constructor, three ways: from a saved buffer (member list of the right / a wrong length, with and
+                    # without the check), from one fingerprint, empty
+                    kind_i = rng.choice(["buffer", "buffer", "row", "empty"])
+                    chk = rng.random() < 0.8
+                    if kind_i == "buffer":
+                        nb = rng.choice([1, 2, 127, 128, 255, 255, 256, 300])
+                        buf = np.asarray([rng.choice([0, nb, nb // 2, (nb + 1) // 2, rng.randint(0, nb)]) for _ in range(F)] + [nb],
+                                         dtype=rng.choice([min_safe_uint(nb).type, np.uint64]))
+                        ids_ = list(range(nb + rng.choice([0, 0, 0, 1, -1]) if nb > 1 else nb))
+                        kw_i = dict(buffer=buf, mol_indices=ids_, check_indices=chk)
+                        args_i = [None, ids_, 2048, np.array(buf), chk]
+                    elif kind_i == "row":
+                        row = np.asarray([rng.randint(0, 1) for _ in range(F)], dtype=np.uint8)
+                        ids_ = [rng.randint(0, 99)] * rng.choice([1, 1, 1, 2, 0])
+                        kw_i = dict(linear_sum=row, mol_indices=ids_, check_indices=chk)
+                        args_i = [np.array(row), ids_, 2048, None, chk]
+                    else:
+                        ids_ = [] if rng.random() < 0.8 else [3]
+                        nfeat = rng.randint(1, 20)
+                        kw_i = dict(n_features=nfeat, mol_indices=ids_, check_indices=chk)
+                        args_i = [None, ids_, nfeat, None, chk]
+                    with np.errstate(all="ignore"):
+                        try:
+                            o_ = BBM._BFSubcluster(**kw_i)
+                            real_i = (None,) + state(o_)
+                        except ValueError:
+                            real_i = "ERR"
+                    if real_i == "ERR":
+                        m_ = d.cmd("GEN _BFSubcluster_init " + " ".join(pv(a) for a in args_i)).split(" ")[0]
+                        res.evaluations += 1
+                        cnt["_BFSubcluster_init"] = cnt.get("_BFSubcluster_init", 0) + 1
+                        if m_ != "err:ValueError" and res.disagreement is None:
+                            res.disagreement = {"what": "generated _BFSubcluster_init accepts what the constructor refuses",
+                                                "args": [pv(a) for a in args_i], "model": m_, "impl": "err:ValueError"}
+                    else:
+                        compare("_BFSubcluster_init", args_i, real_i)
                     compare("_BFSubcluster_n_samples", list(st_c), c.n_samples)
                     compare("_BFSubcluster_linear_sum", list(st_c), np.array(c.linear_sum))
                     which_m = rng.choice(["update", "add_to", "replace", "merge", "merge"])
